@@ -18,6 +18,12 @@ def main : IO Unit := do
   for a in wgAdds do
     if !wgAddOk a then
       IO.println s!"WGADD\t{a.1}\t{a.2.1}\t{a.2.2.2.2.2}"
+  for w in repoWaits do
+    let held := ", ".intercalate w.2.2.1
+    if !repoWaitOk w then
+      IO.println s!"WAIT\t{w.1}\t{w.2.1}\t{held}\t{w.2.2.2.1}\t{w.2.2.2.2.1}\t{w.2.2.2.2.2}"
+    else if !shutdownRoots.contains w.2.2.2.1 && !w.2.2.1.isEmpty then
+      IO.println s!"WAITEXC\t{w.1}\t{w.2.1}\t{held}\t{w.2.2.2.1}\t{w.2.2.2.2.1}\t{w.2.2.2.2.2}"
   for (f, c) in tokenTakes do
     IO.println s!"TOKEN\t{f}\t{c}"
   for f in lockUnreached do
